@@ -314,6 +314,19 @@ def batcher_rule(ctx, triggers=False):
     if any(enq.blocks[b]['t']['t'] == 'return' for b in reach):
         ctx.viol('%s|drops' % enq.path, enq.at,
                  'Batcher::enqueue has a path to return that neither pushes the element into the buffer nor sends it', None)
+    # a direct send of the new element is only legal in Single mode: in a buffered mode it would overtake the
+    # elements that are still waiting in the buffer (the mode of a Batcher never changes)
+    for bi, t in sends:
+        dnf = q.cond_of_block(facts, enq, bi)
+        modes = sorted({a[2] for c in dnf for a in c if a[0] == 'is' and 'mode' in a[1]})
+        ctx.inst('Batcher::enqueue|direct send', {'at': t['at'], 'modes': modes})
+        if modes != ['Single']:
+            ctx.viol('%s|send-bypasses-buffer' % enq.path, t['at'],
+                     'Batcher::enqueue sends an element directly in mode %s: elements still waiting in the buffer are overtaken, so the '
+                     'consumer receives them in a different order than they were produced' % (modes or ['?']), None)
+    for f_ in (enq, fl, en):
+        for bi, si, fld, s_ in q.self_writes(f_, 'mode'):
+            ctx.viol('%s|mode-changes' % f_.path, s_['at'], 'the batch mode of a Batcher is changed after construction', None)
     for bi, t in pushes:
         recv = render(strip(sym.operand(t['args'][0])))
         val = render(strip(sym.operand(t['args'][1])))
